@@ -670,17 +670,17 @@ func c05(c *Ctx) {
 		add(x86.MOVQ(operand.Mem{Base: reg.RAX, Index: reg.RCX, Scale: 8, Disp: disp}, reg.RDX))
 		add(x86.MOVQ(reg.RDX, operand.Mem{Base: reg.RBX, Disp: disp}))
 	}
-	add(x86.MOVQ(operand.NewParamAddr("x", 0), reg.RCX))
-	add(x86.MOVQ(operand.NewStackAddr(16), reg.RCX))
+	add(x86.MOVQ(paramMem("x", 0), reg.RCX))
+	add(x86.MOVQ(stackMem(16), reg.RCX))
 	// symbolic references: static and global data, with displacement and index; argument and stack
 	// references with an index register
-	add(x86.MOVQ(operand.NewDataAddr(operand.NewStaticSymbol("tbl"), 0), reg.RCX))
-	add(x86.MOVQ(operand.NewDataAddr(operand.NewStaticSymbol("tbl"), 24), reg.RCX))
-	add(x86.LEAQ(operand.NewDataAddr(operand.NewStaticSymbol("tbl"), 8), reg.RDX))
-	add(x86.MOVQ(operand.NewDataAddr(operand.Symbol{Name: "runtime·x"}, 0), reg.RCX))
-	add(x86.MOVQ(operand.NewStackAddr(8).Idx(reg.RCX, 8), reg.RDX))
-	add(x86.MOVL(operand.NewStackAddr(0).Idx(reg.R9, 4), reg.EDX))
-	add(x86.MOVQ(reg.RDX, operand.NewStackAddr(16).Idx(reg.RSI, 1)))
+	add(x86.MOVQ(dataMem(operand.NewStaticSymbol("tbl"), 0), reg.RCX))
+	add(x86.MOVQ(dataMem(operand.NewStaticSymbol("tbl"), 24), reg.RCX))
+	add(x86.LEAQ(dataMem(operand.NewStaticSymbol("tbl"), 8), reg.RDX))
+	add(x86.MOVQ(dataMem(operand.Symbol{Name: "runtime·x"}, 0), reg.RCX))
+	add(x86.MOVQ(idxMem(stackMem(8), reg.RCX, 8), reg.RDX))
+	add(x86.MOVL(idxMem(stackMem(0), reg.R9, 4), reg.EDX))
+	add(x86.MOVQ(reg.RDX, idxMem(stackMem(16), reg.RSI, 1)))
 	add(x86.LEAQ(operand.Mem{Base: reg.RDX, Index: reg.RDX, Scale: 8}, reg.RCX))
 	for k := mark; k < len(insts); k++ {
 		insts[k].Class = "addressing"
@@ -776,6 +776,11 @@ func c05(c *Ctx) {
 	b.WriteString("Definition R_imm_violation := Eval vm_compute in List.map (N.add 3000000) (idx_where (fun c => negb (imm_text_ok c)) rcases).\nPrint R_imm_violation.\n")
 	o.WriteFile("Render.v", b.String())
 	o.Stage("Render.v")
+	nm := 400
+	if c.Thorough() {
+		nm = 6000
+	}
+	memHelperFile(o, NewRNG(c.Seed+555), nm, nil, "MemOps.v")
 	o.Oblig("Render.names_plain")
 	o.ExpectEmpty("Render.v", "R_render_mismatch", "mismatch", "model of operand rendering (register names, memory references, constants) vs Op.Asm()")
 	o.ExpectEmpty("Render.v", "R_imm_violation", "violation", "a printed constant does not denote the constant's bytes when read as the assembler reads integer literals")
